@@ -42,7 +42,7 @@ struct Lossy {
     int ret = S.enc.encode(pcm.data(), frame, max_bytes, fmt, rc.pkt);
     run.ev((uint64_t)ret); run.evb(rc.pkt.data(), rc.pkt.size());
     S.pos += frame; S.t48 += rc.frame48;
-    if (ret <= 0) { if (ret == OPUS_INTERNAL_ERROR) REPORT(run, prop, "enc_internal_error", "frame %d", frame); return; }
+    if (ret <= 0) return;   // (an encoder failure is C02 / C05's subject)
     rc.enc_range = S.enc.final_range(); rc.mode = toc_mode(rc.pkt[0]);
     rc.lbrr = opus_packet_has_lbrr(rc.pkt.data(), (opus_int32)rc.pkt.size());
     if (rc.mode != 2) {
@@ -108,7 +108,7 @@ struct Lossy {
       int n = (int)((int64_t)rc.frame48 * dfs / 48000);
       std::vector<float> pr, pl, pp; bool fin = true, can = true;
       int rr = Rd.decode(rc.pkt.data(), (int)rc.pkt.size(), n, 0, FMT_F32, &pr, nullptr, &can, &fin);
-      if (rr != n) REPORT(run, prop, "reference_decode_wrong_count", "packet %zu: %d vs %d", k, rr, n);
+      (void)rr;   // the loss-free twin is an instrument, not a subject
       ref_peak.push_back(peak(pr));
       while (!pending.empty() && pending.front().k + 1 <= k) {
         Pending q = pending.front(); pending.erase(pending.begin());
@@ -120,12 +120,10 @@ struct Lossy {
           if (q.pk > KAPPA_NB * nb) REPORT(run, prop, "isolated_concealment_louder_than_neighbourhood", "concealed frame peak %.4f vs %.4f in the loss-free twin's packets %zu..%zu (x%.1f)", q.pk, nb, q.k - 2, q.k + 1, q.pk / nb);
         }
       }
-      if (Rd.final_range() != rc.enc_range) REPORT(run, prop, "reference_final_range_mismatch", "packet %zu", k);
       run.sim_samples48 += rc.frame48;
       if (!rc.lost) {
         int lr = Ld.decode(rc.pkt.data(), (int)rc.pkt.size(), n, 0, FMT_F32, &pl, nullptr, &can, &fin);
         if (lr != n) REPORT(run, prop, "received_packet_wrong_count", "packet %zu: %d vs %d", k, lr, n);
-        if (!fin) REPORT(run, prop, "received_packet_nonfinite", "packet %zu", k);
         if (Ld.final_range() != rc.enc_range) REPORT(run, prop, "received_packet_final_range_mismatch", "packet %zu after %s: enc %08x dec %08x (toc %02x)", k, last_loss >= 0 ? "earlier loss" : "no loss", rc.enc_range, Ld.final_range(), rc.pkt[0]);
         int qr = Pd.decode(rc.pkt.data(), (int)rc.pkt.size(), n, 0, FMT_F32, &pp, nullptr, &can, &fin);
         if (qr != n || Pd.final_range() != rc.enc_range) REPORT(run, prop, "received_packet_final_range_mismatch", "PLC-only replica, packet %zu", k);
